@@ -27,4 +27,11 @@ def write(prop, tier, seed, level, coverage, assumptions, wall_s, violations, ex
         json.dump(doc, f, indent=1, sort_keys=True, default=str)
         f.write("\n")
     os.replace(tmp, path)
+    if tier == "thorough" and not os.environ.get("VERIF_EVIDENCE_DIR"):
+        # keep the last thorough run next to the (usually quick) evidence file the harness rewrites
+        keep = os.path.join(os.path.dirname(path), "thorough")
+        os.makedirs(keep, exist_ok=True)
+        with open(os.path.join(keep, "%s.json" % prop), "w") as f:
+            json.dump(doc, f, indent=1, sort_keys=True, default=str)
+            f.write("\n")
     return path
